@@ -56,6 +56,8 @@ EXTRA = {
     'W10': [('S', {'A1': True, 'A2': 1, 'A3': 0, 'A4': False, 'A5': 1.0, 'B1': '=A1&A2&A3&A4', 'C1': '=SUM(A:A)+COUNT(A:B)'})],
     'W11': [('S', {'A1': 1, 'A2': True, 'A3': False, 'A4': 0, 'A5': 2, 'A6': 4, 'A7': 8, 'B1': '=A1&A2&A3&A4', 'C1': '=SUM(A:A)+COUNT(A:B)'})],
     'W12': [('S', {'A1': 5, 'A2': 6, 'C1': '=SUM(A:A)+COUNT(A:B)', 'D1': '=VLOOKUP(6,A:B,1,0)'})],
+    # nested far deeper than the default recursion limit allows: refused in a fresh process - and after any history
+    'WD': [('S', {'A1': '=' + 'SUM(' * 300 + '1' + ')' * 300, 'B1': 2})],
     # arguments spelled twice inside one call (anything that de-duplicates them through a set orders them by hash)
     'W13': [('S', dict({f'{c}1': i + 1 for i, c in enumerate('ABCDEF')},
                        A2='=MIN(A1,B1,C1,D1,E1,F1,A1)', B2='=MAX(F1,A1,B1,C1,D1,E1,F1)', C2='=SUM(A1,B1,A1,C1,D1,B1)',
